@@ -178,6 +178,17 @@ static void run_case(Ctx& c, uint64_t idx) {
             B = Str("s://") + (w == 1 ? UP[r.below(6)] : "u@") + g[r.below(6)] + (w == 2 ? PT[r.below(6)] : ":1") + PA[r.below(8)];
             gen = "hostkinds";
         }
+        if (r.chance(1, 25)) {      // one component of the base is the source's plus 256*m characters (a length kept in 8 or 16 bits compares them equal),
+                                    // or differs from it only in the letter case of a hex digit inside a triplet
+            static const size_t PAD[] = {256, 512, 65536, 255, 257, 1}; Str pad(PAD[r.below(6)], 'a'); int w = (int)r.below(6);
+            Str u = "joe", h = "host", pt = "8", d = "dir%7Euser", q = "k";
+            Str u2 = u, h2 = h, pt2 = pt, d2 = d, q2 = q;
+            switch (w) { case 0: u2 += pad; break; case 1: h2 += pad; break; case 2: pt2 += Str(pad.size(), '0'); break; case 3: d2 += pad; break; case 4: q2 += pad; break; default: d2 = "dir%7euser"; break; }
+            static const char* const TL[] = {"/x", "/pub/x", "", "/", "/pub/", "/y/z"};
+            S = "s://" + u + "@" + h + ":" + pt + "/" + d + TL[r.below(6)] + "?" + q; B = "s://" + u2 + "@" + h2 + ":" + pt2 + "/" + d2 + TL[r.below(6)] + "?" + q2;
+            if (r.coin()) std::swap(S, B);
+            gen = "length-mod-256";
+        }
         if (r.chance(1, 50)) S = gen_uri(r);       // may be relative: error-code clause
     }
     c.count(Str("gen_") + gen);
